@@ -12,6 +12,8 @@ import io
 import json
 import os
 
+import z3
+
 from . import models, sstr
 from .models import func_model, method_model, engine_type, contains_sym, FUNC_MODELS
 from .sstr import SymStr, mk
@@ -354,6 +356,10 @@ def _open(I, args, kwargs):
     fs = I.options.get("fs")
     if fs is not None and args and fs.covers(args[0]):
         return fs.open(I, *args, **kwargs)
+    if args and "symfiles" in I.options:
+        f = open_symfile(I, args[0], args[1] if len(args) > 1 else kwargs.get("mode", "r"))
+        if f is not None:
+            return f
     return I.native(open, *args, **kwargs)
 
 
@@ -870,3 +876,209 @@ def _ini_read_string(I, args, kwargs):
         f = SymIO(text)
         return _ini_read_file(I, [parser, f], {})
     return NotImplemented
+
+
+# ---------------------------------------------------------------------------------------------------
+# hashing a file of symbolic size (C16)
+#
+# The file is a byte string of symbolic length n whose content is not modelled.  read(k) returns the interval
+# [pos, pos + min(k, n - pos)) as a token; hashlib objects record the intervals they are fed; the digest is
+# H(name, bytes fed) with H uninterpreted.  Contract: update(a); update(b) == update(a + b); read(k) returns at
+# most k bytes and b"" only at end of file; hexdigest() is lower-case hexadecimal.
+import hashlib as _hashlib
+
+
+@engine_type
+class SymBytes(object):
+    def __init__(self, fid, lo, hi):
+        self.fid, self.lo, self.hi = fid, lo, hi
+
+    def psx_symbolic(self):
+        return True
+
+    def psx_truth(self):
+        return mkbool(self.hi > self.lo)
+
+    def __len__(self):
+        raise sstr.SymEscape("SymBytes escaped")
+
+
+@engine_type
+class SymFile(object):
+    def __init__(self, fid, size):
+        self.fid, self.size, self.pos = fid, size, 0
+        self.closed = False
+
+    def psx_symbolic(self):
+        return True
+
+    def read(self, k=-1):
+        from .interp import current
+        I = current()
+        if isinstance(k, SYM):
+            I.unsupported("read() with a symbolic size")
+        rest = self.size - self.pos
+        if k is None or k < 0:
+            ln = rest
+        else:
+            ln = z3.If(rest < k, rest, k)
+        b = SymBytes(self.fid, self.pos, self.pos + ln)
+        self.pos = self.pos + ln
+        return b
+
+    def close(self):
+        self.closed = True
+
+    def __enter__(self):
+        return self
+
+    def __exit__(self, *a):
+        self.close()
+        return False
+
+
+@engine_type
+class DigestText(object):
+    """hex digest of an uninterpreted hash over a sequence of intervals of a symbolic file"""
+
+    def __init__(self, name, parts, case="lower"):
+        self.name, self.parts, self.case = name, parts, case
+
+    def psx_symbolic(self):
+        return True
+
+    def lower(self):
+        return DigestText(self.name, self.parts, "lower")
+
+    def upper(self):
+        return DigestText(self.name, self.parts, "upper")
+
+    def strip(self, *a):
+        return self
+
+    def psx_truth(self):
+        return True
+
+    def psx_eq(self, other):
+        from .interp import current
+        I = current()
+        if not isinstance(other, DigestText):
+            if isinstance(other, (str, SymStr)):
+                I.unsupported("comparison of a symbolic digest with text")
+            return False
+        if self.name != other.name or self.case != other.case:
+            return False
+        a, b = self.parts, other.parts
+        if len(a) == len(b) and all(x[0] == y[0] and x[1] is y[1] and x[2] is y[2] for x, y in zip(a, b)):
+            return True
+        if len(b) != 1 and len(a) == 1:
+            a, b = b, a
+        if len(b) != 1:
+            I.unsupported("comparison of two multi-part symbolic digests")
+        (fid, lo, hi) = b[0]
+        # a's non-empty intervals, in order, tile [lo, hi)
+        terms = []
+        cur = lo
+        for (f2, l2, h2) in a:
+            if f2 != fid:
+                return False
+            empty = (h2 <= l2)
+            terms.append(Or(empty, And(l2 == cur, h2 <= hi, h2 > l2)))
+            cur = z3.If(empty, cur, h2)
+        terms.append(cur == hi)
+        return mkbool(And(*terms))
+
+
+@engine_type
+class SymHash(object):
+    def __init__(self, name):
+        self.name = name
+        self.parts = []
+
+    def psx_symbolic(self):
+        return True
+
+    def update(self, b):
+        from .interp import current
+        I = current()
+        if isinstance(b, SymBytes):
+            self.parts.append((b.fid, b.lo, b.hi))
+            return None
+        if isinstance(b, (bytes, bytearray)) and len(b) == 0:
+            return None
+        I.unsupported("hash update mixing symbolic and concrete bytes")
+
+    def hexdigest(self):
+        return DigestText(self.name, list(self.parts))
+
+    def copy(self):
+        h = SymHash(self.name)
+        h.parts = list(self.parts)
+        return h
+
+
+@func_model(_hashlib.new)
+def _hashlib_new(I, args, kwargs):
+    name = args[0]
+    if isinstance(name, SYM):
+        name = models.concretize(I, name)
+    if "symfiles" not in I.options:
+        return NotImplemented
+    if name not in _hashlib.algorithms_available:
+        I.raise_(ValueError("unsupported hash type " + name))
+    h = SymHash(name)
+    data = args[1] if len(args) > 1 else kwargs.get("data")
+    if data is not None:
+        h.update(data)
+    return h
+
+
+def open_symfile(I, path, mode):
+    files = I.options.get("symfiles") or {}
+    if path in files:
+        if mode != "rb":
+            I.unsupported("symbolic file opened in mode %r" % mode)
+        return SymFile(path, files[path])
+    return None
+
+
+# os.path.normpath on ropes whose symbolic parts contain no separator
+import posixpath as _posixpath
+
+
+@func_model(os.path.normpath, _posixpath.normpath)
+def _normpath(I, args, kwargs):
+    p = args[0]
+    if not isinstance(p, SymStr):
+        return NotImplemented
+    if not all(isinstance(seg, str) or models._sep_free(seg, "/") for seg in p.segs):
+        I.unsupported("normpath of a symbolic path whose symbolic parts may contain '/'")
+    comps = models._split_impl(I, p, "/", -1, False)
+    first = p.segs[0]
+    slashes = 0
+    if isinstance(first, str):
+        slashes = len(first) - len(first.lstrip("/"))
+    initial = 0 if slashes == 0 else (2 if slashes == 2 else 1)
+    new = []
+    for c in comps:
+        if isinstance(c, str):
+            is_empty, is_dot, is_dotdot = c == "", c == ".", c == ".."
+        else:
+            is_empty = I.truth(I.eq(c, ""))
+            is_dot = (not is_empty) and I.truth(I.eq(c, "."))
+            is_dotdot = (not is_empty) and (not is_dot) and I.truth(I.eq(c, ".."))
+        if is_empty or is_dot:
+            continue
+        if not is_dotdot or (not initial and not new) or (new and isinstance(new[-1], str) and new[-1] == ".."):
+            new.append(c if not is_dotdot else "..")
+        elif new:
+            new.pop()
+    out = []
+    for i, c in enumerate(new):
+        if i:
+            out.append("/")
+        out.append(c)
+    res = mk(["/" * initial] + out)
+    if isinstance(res, str) and res == "":
+        return "."
+    return res
